@@ -31,6 +31,7 @@ package framing
 //@   ensures [C06:key_layout] fresh(encoder) && encInv(encoder) && seq(encoder.key) == sub(seq(key), 0, 32) && seq(encoder.nonce.prefix) == sub(seq(key), 32, 48)
 //@       && encoder.drbg.sip.hkey == sub(seq(key), 48, 64) && seq(encoder.drbg.ofb) == sub(seq(key), 64, 72) && len(encoder.drbg.sip.absorbed) == 0
 //@   ensures [C06:counter_starts_at_1] encoder.nonce.counter == 1
+//@   ensures fresh(encoder.drbg) && fresh(encoder.drbg.sip)
 
 //@ func NewDecoder(key) (decoder)
 //@   serves C06 C10
@@ -38,6 +39,7 @@ package framing
 //@   ensures [C06:key_layout] fresh(decoder) && decInv(decoder) && seq(decoder.key) == sub(seq(key), 0, 32) && seq(decoder.nonce.prefix) == sub(seq(key), 32, 48)
 //@       && decoder.drbg.sip.hkey == sub(seq(key), 48, 64) && seq(decoder.drbg.ofb) == sub(seq(key), 64, 72) && len(decoder.drbg.sip.absorbed) == 0
 //@   ensures [C06:counter_starts_at_1] decoder.nonce.counter == 1 && decoder.nextLength == 0 && !decoder.nextLengthInvalid
+//@   ensures fresh(decoder.drbg) && fresh(decoder.drbg.sip)
 
 //@ func (*Encoder).Encode(encoder, frame, payload) (n, err)
 //@   serves C01 C06 C09 C10
